@@ -94,6 +94,9 @@ type c05Inst struct {
 	T    int64
 	m    *c05Model
 	last *c05Step
+	// inject: the result of a block executed elsewhere (by another group's instance on the
+	// same world); the next applyBlock("empty") models it instead of executing a block
+	inject *fix.BlockResult
 }
 
 type c05Step struct {
@@ -131,6 +134,9 @@ func (in *c05Inst) child(name string) *c05Child {
 func (in *c05Inst) applyBlock(spec string) bool {
 	w, m, g := in.w, in.m, in.g
 	h := w.R.L.GetChainMeta().Height + 1
+	if in.inject != nil {
+		h = in.inject.Height // the block has been executed already
+	}
 	st := &c05Step{height: h, desc: spec, trigger: -2, succBefore: map[string]bool{}, begunBefore: map[string]bool{}, reported: map[string]bool{}}
 	for id, cs := range m.st {
 		st.succBefore[id] = cs.succ
@@ -198,7 +204,11 @@ func (in *c05Inst) applyBlock(spec string) bool {
 		m.doomed, m.doomedAt = true, h
 		st.doomNow, st.trigger = true, -1
 	}
-	st.res = w.Block(txs...)
+	if in.inject != nil {
+		st.res = in.inject
+	} else {
+		st.res = w.Block(txs...)
+	}
 	if st.ambiguous && !m.doomed {
 		ok, data := viewState(w.R, constant.TransactionMgrContractAddr, contracts.GlobalTxInfoKey(g.globalID()))
 		info := contracts.TransactionInfo{}
